@@ -55,3 +55,7 @@ def fill(chk, NA):
         'every history of up to 3 (quick) / 4 (thorough) mutating tree-API calls over alphabets derived from the trees (42-59 events at full depth, 295-447 events at depth 1/2) is executed on the real x12context tree obtained from the real context reader and compared with a nested-list reference model after every call; an exists/count/first/select/get_value battery over all derived paths runs at every distinct state; three trees from two documents, copies and children of copies included',
         'trusted: the hand-written source documents, mc/grammar.py for positions and code lists, the model insertion/matching rules, the canonical-state projection; combinations the statement leaves open are counted, not judged',
         'explicit-state breadth-first search over API call histories of the real tree paired with a reference model', 'E2', 'DESIGN.md 3/C10')
+    chk('C15', 'model_checking',
+        'complete product: every element, sub-element and composite node of every loadable map (quick: one per definition signature) x a value catalogue derived from the node own definition (length boundaries, 14+ character classes, every inline code and near misses, members / non-members of external sets, dates, times, date-time periods under every qualifier, regex hit/miss) x both charsets x single and joint external-code exclusions, run through the real element_if / composite_if / segment_if is_valid and compared as a set of error codes plus result flag with a definition evaluator over an independent reading of the map, data-element and code-set XML',
+        'trusted: mc/grammar.py, the C13 reference recognisers as type oracle, errh_list as observation point; combinations the statement leaves open are asserted only as far as it goes and counted',
+        'exhaustive product enumeration over all map nodes on the real validation functions against a definition evaluator', 'E1', 'DESIGN.md 3/C15')
